@@ -62,18 +62,22 @@ class World:
         for at, delta in wall_steps:
             self.clock.at(self.t0 + at, lambda delta=delta: step(delta))
         self.polls = []       # (time, pid, result)
+        self.fires = {}
+        self.access_exit = None      # (access index, pid): the process ends right before that kernel access is served
+        self.access_exit_fired_at = None
         self.eintr_at = eintr_at
         self.nwait = 0
         for i, pr in enumerate(procs):
             if pr["kind"] == "never":
                 continue
             t.spawn(pr["pid"], 100 + i, ppid=(2 if pr["kind"] == "child" else 1), comm=b"w%d" % i)
+            def fire(pr=pr):
+                if pr["kind"] == "child":
+                    t.exit(pr["pid"], pr["status"])
+                else:
+                    t.remove(pr["pid"])
+            self.fires[pr["pid"]] = fire
             if pr["exit_at"] is not None:
-                def fire(pr=pr):
-                    if pr["kind"] == "child":
-                        t.exit(pr["pid"], pr["status"])
-                    else:
-                        t.remove(pr["pid"])
                 self.clock.at(self.t0 + pr["exit_at"], fire)
         self.t = t
         vk = env["vkernel"].VK()
@@ -94,6 +98,12 @@ class World:
             if i > 400000:
                 # watchdog in logical steps (a call that spins without ever sleeping)
                 raise RuntimeError("runaway: more than 400000 kernel accesses in one simulated case (the call never returns)")
+            if self.access_exit is not None and i >= self.access_exit[0]:
+                pid_ = self.access_exit[1]
+                self.access_exit = None
+                self.access_exit_fired_at = self.clock.t
+                self.access_exit_polls_before = len(self.polls)
+                self.fires[pid_]()
             if kind in ("waitpid", "kill"):
                 self.polls.append((self.clock.t, path, kind))
         vk.on_access = on_access
@@ -183,6 +193,9 @@ def run_wait_case(case, acc):
         w.clock.advance(0)        # exits scheduled at +0 have already happened when wait() is called
         start = w.clock.t
         w.polls.clear()
+        if case.get("exit_at_access") is not None:
+            # the process ends between two kernel accesses of the call (whatever they are: polls, procfs reads, ...)
+            w.access_exit = (len(w.vk.log) + case["exit_at_access"], PID)
         try:
             r = ("ok", p.wait(timeout))
         except ps.TimeoutExpired as e:
@@ -193,6 +206,10 @@ def run_wait_case(case, acc):
         acc.count("wait_calls_checked")
         sleeps = list(w.clock.sleeps)
         T = None if exit_at is None else w.t0 + exit_at
+        if case.get("exit_at_access") is not None:
+            w.access_exit = None
+            T = w.access_exit_fired_at
+            acc.count("waits_with_exit_between_two_accesses" if T is not None else "waits_with_exit_access_never_reached")
         deadline = None if timeout is None else start + timeout
         # sleeps discipline
         if sleeps:
@@ -257,7 +274,9 @@ def run_wait_case(case, acc):
                     # the process had already ended when TimeoutExpired was raised: was it seen by the last poll?
                     last_poll = max((t for t, _, _ in w.polls), default=start)
                     lastp = [x for x in w.polls if x[0] == last_poll]
-                    if T <= last_poll + 1e-12:
+                    unseen = (case.get("exit_at_access") is not None
+                              and getattr(w, "access_exit_polls_before", 0) == len(w.polls))    # no poll came after the exit
+                    if T <= last_poll + 1e-12 and not unseen:
                         mech = "timeout_although_exit_seen_by_last_poll"
                         if any(x[2] == "EINTR" for x in lastp):
                             mech = "timeout_raised_after_interrupted_poll_without_retry"
@@ -310,6 +329,11 @@ def grid_cases(tier):
             for x in sorted(pts):
                 out.append(dict(kind=kind, exit_at=x, status=(3 << 8), timeout=timeout))
             out.append(dict(kind=kind, exit_at=None, status=0, timeout=timeout if timeout is not None else 0.3))
+    # the process ends right before the k-th kernel access of the call, for every k the call can reach
+    for kind in ("child", "nonchild"):
+        for timeout in (0, 0.0001, 0.003, 0.05, 0.2):
+            for k in range(0, 24):
+                out.append(dict(kind=kind, exit_at=None, exit_at_access=k, status=(5 << 8), timeout=timeout))
     for timeout in (None, 0, 0.2):
         out.append(dict(kind="never", exit_at=None, status=0, timeout=timeout))
     for timeout in (-1, -0.0001, -1e9):
@@ -340,6 +364,9 @@ def gen_wait_case(rng):
     case = dict(kind=kind, exit_at=exit_at, status=status, timeout=timeout)
     if kind == "child" and rng.random() < 0.2:
         case["eintr_at"] = rng.randrange(0, 30)
+    if rng.random() < 0.15 and timeout is not None:
+        case["exit_at"] = None
+        case["exit_at_access"] = rng.randrange(0, 40)
     if rng.random() < 0.25:
         # the calendar clock is stepped (NTP, date -s, VM resume) while the wait is in progress
         case["wall_steps"] = [[rng.random() * ((timeout or 1.0) + 0.2), rng.choice([-3600.0, -3.0, 3.0, 3600.0, -0.5, 0.5])]
@@ -389,6 +416,19 @@ def run_wait_procs_case(case, acc):
                     acc.count("wait_procs_pid_recycled_before_the_call")
         cb_calls = []
         cb = (lambda p: cb_calls.append(p)) if case.get("callback", True) else None
+        cb_exc = None
+        if case.get("cb_raises"):
+            import subprocess as _sp
+            cb_exc = {"psutil.TimeoutExpired": lambda: ps.TimeoutExpired(3, pid=1), "subprocess.TimeoutExpired": lambda: _sp.TimeoutExpired("x", 3),
+                      "NoSuchProcess": lambda: ps.NoSuchProcess(1), "ValueError": lambda: ValueError("from the callback"),
+                      "KeyError": lambda: KeyError("k")}[case["cb_raises"]]()
+
+            def cb(p):          # noqa: F811
+                cb_calls.append(p)
+                if len(cb_calls) > 500:
+                    raise RuntimeError("runaway: the callback was called more than 500 times")
+                raise cb_exc
+            acc.count("wait_procs_with_raising_callback")
         w.clock.advance(0)
         start = w.clock.t
         try:
@@ -400,11 +440,23 @@ def run_wait_procs_case(case, acc):
                 acc.count("wait_procs_given_another_iterable")
             gone, alive = ps.wait_procs(arg, timeout=timeout, callback=cb)
         except Exception as e:  # noqa: BLE001
+            if cb_exc is not None and e is cb_exc:
+                # the callback's own failure reached the caller; what happened before still counts: no process twice
+                acc.count("wait_procs_callback_failure_propagated")
+                for pr in procs:
+                    ncb = sum(1 for c in cb_calls if c.pid == pr["pid"])
+                    if ncb > 1:
+                        viols.append(("callback_not_exactly_once:callback_raised", ctx + f" pid={pr['pid']} n={ncb}"))
+                acc.case(case, True, viols)
+                return
             viols.append((f"wait_procs_exception:{type(e).__name__}", ctx + f" {e!r}"))
             acc.case(case, True, viols)
             return
         end = w.clock.t
         acc.count("wait_procs_checked")
+        if cb_exc is not None and cb_calls:
+            # the function chose to go on after the callback failed: the bookkeeping rules below apply unchanged
+            acc.count("wait_procs_went_on_after_callback_failure")
         gp, ap = [o.pid for o in gone], [o.pid for o in alive]
         if sorted(gp + ap) != sorted(pr["pid"] for pr in procs):
             # every process exactly once, however often it was mentioned
@@ -460,6 +512,8 @@ def wait_procs_cases(tier):
                     out.append(dict(procs=procs, timeout=timeout, callback=True, prewait=[0, n - 1]))
                     out.append(dict(procs=procs, timeout=timeout, callback=True, prewait=[0, n - 1], reuse=True))
                     out.append(dict(procs=procs, timeout=timeout, callback=True, reuse=True))
+                    for exn in ("psutil.TimeoutExpired", "subprocess.TimeoutExpired", "NoSuchProcess", "ValueError"):
+                        out.append(dict(procs=procs, timeout=timeout, callback=True, cb_raises=exn))
                 if n <= 2:
                     for how in ("same", "equal"):
                         out.append(dict(procs=procs, timeout=timeout, callback=True, dups=[[0, how]]))
@@ -480,6 +534,8 @@ def gen_wait_procs_case(rng):
         case["wall_steps"] = [[rng.random() * ((timeout or 1.0) + 0.2), rng.choice([-3600.0, -3.0, 3.0, 3600.0])]]
     if rng.random() < 0.3:
         case["form"] = rng.choice(["tuple", "generator", "iterator", "filter", "dict_keys"])
+    if case["callback"] and rng.random() < 0.12:
+        case["cb_raises"] = rng.choice(["psutil.TimeoutExpired", "subprocess.TimeoutExpired", "NoSuchProcess", "ValueError", "KeyError"])
     if rng.random() < 0.15:
         case["reuse"] = True
     if rng.random() < 0.3:
